@@ -145,3 +145,31 @@ int read_unchecked(const char *s, struct Arr *a) { struct Arr *tmp = malloc(size
 /* VARIANT read_after_label: nonnull=1 */
 /* EXPECTT read_after_label@user: W=builtin_arr */
 int read_after_label(int c, struct Arr *a) { struct Arr *tmp = NULL; if (c) goto use; tmp = malloc(sizeof *tmp); if (tmp == NULL) return 0; use: return add_dispatch(1.0, tmp); }
+/* ---- errno: written by libc (allow-listed), but a READ that can see what an earlier call left behind is a dependence on hidden state ----- */
+#include <errno.h>
+/* EXPECTX errno_stale_check: X=strtod,__errno_location,errno@read */
+int errno_stale_check(const char *s) { double d = strtod(s, NULL); if (errno == ERANGE) return -1; return d > 1; }
+/* EXPECTX errno_cleared_check: X=strtod,__errno_location */
+int errno_cleared_check(const char *s) { double d; errno = 0; d = strtod(s, NULL); if (errno == ERANGE) return -1; return d > 1; }
+/* EXPECTX errno_cleared_in_loop: X=strtod,__errno_location */
+int errno_cleared_in_loop(const char **s, int n) { int i, bad = 0; for (i = 0; i < n; i++) { errno = 0; strtod(s[i], NULL); if (errno) bad++; } return bad; }
+/* EXPECTX errno_cleared_in_branch_only: X=strtod,__errno_location,errno@read */
+int errno_cleared_in_branch_only(const char *s, int c) { if (c) { errno = 0; } strtod(s, NULL); return errno == ERANGE; }
+/* EXPECTX errno_cleared_before_label: X=strtod,__errno_location,errno@read */
+int errno_cleared_before_label(const char *s, int c) { if (c) goto conv; errno = 0; conv: strtod(s, NULL); return errno == ERANGE; }
+/* EXPECTX errno_report_only: X=malloc,free,strerror,__errno_location */
+const char *errno_report_only(size_t n) { void *p = malloc(n); if (p == NULL) return strerror(errno); free(p); return NULL; }
+/* EXPECTX errno_save_restore: X=strtod,__errno_location */
+double errno_save_restore(const char *s) { int saved = errno; double d = strtod(s, NULL); errno = saved; return d; }
+/* EXPECTX errno_saved_then_used: X=strtod,__errno_location,errno@read */
+double errno_saved_then_used(const char *s) { int saved = errno; double d = strtod(s, NULL); errno = saved; return saved ? -d : d; }
+/* EXPECTX errno_copied_out: X=__errno_location,errno@read */
+int errno_copied_out(void) { return errno; }
+/* ---- what a function hands out: a "copy" that still points into its original, or that writes through its const argument, is not one ------ */
+struct Msg { int code; char *text; };
+/* EXPECTS deep_copy: ret=H pw= */
+struct Msg *deep_copy(const struct Msg *m) { struct Msg *c = malloc(sizeof *c); c->code = m->code; c->text = strdup(m->text); return c; }
+/* EXPECTS shallow_copy: ret=H,P:0 pw= */
+struct Msg *shallow_copy(const struct Msg *m) { struct Msg *c = malloc(sizeof *c); c->code = m->code; c->text = m->text; return c; }
+/* EXPECTS counted_copy: ret=H,P:0 pw=0 */
+struct Msg *counted_copy(const struct Msg *m) { struct Msg *c = malloc(sizeof *c); c->code = m->code; c->text = m->text; ((int *)m->text)[-1]++; return c; }
